@@ -385,9 +385,9 @@ Section Sem.
       rewrite IHe1, IHe2 by assumption. rewrite !bind_num_to_res.
       destruct (onum (sem qM sel stack e1)) as [f|]; cbn [bind to_res obind]; [|reflexivity].
       destruct (onum (sem qM sel stack e2)) as [t|]; cbn [bind to_res obind]; [|reflexivity].
-      destruct (Z.leb_spec 0 f); destruct (Z.ltb_spec f 0); try lia; cbn [andb orb]; [|reflexivity].
+      cbv zeta.
       destruct (Z.leb_spec 0 t); destruct (Z.ltb_spec t 0); try lia; cbn [andb orb]; [|reflexivity].
-      destruct (Z.leb_spec f t); destruct (Z.ltb_spec t f); try lia; cbn [andb orb]; [|reflexivity].
+      destruct (Z.leb_spec (Z.max f 0) t); destruct (Z.ltb_spec t f); try lia; cbn [andb orb]; [|reflexivity].
       rewrite with_var_sem by (try assumption; apply wv'_of_bool; assumption).
       destruct (var_ms qM sel v) as [l|]; cbn [option_map to_res]; [|reflexivity].
       do 2 f_equal. apply existsb_ext'. intros m. f_equal;
